@@ -183,9 +183,48 @@ func (w *world) mk(part string, idx int, acc util.Uint160, scopes transaction.Wi
 		c.targets = append(c.targets, w.probes[i].Hash.BytesBE())
 		c.tclass = append(c.tclass, "contract")
 	}
-	c.targets = append(c.targets, w.stranger.BytesBE(), w.decoyG.BytesBE(), w.decoyN.BytesBE())
-	c.tclass = append(c.tclass, "stranger", "decoy-global", "decoy-none")
+	c.targets = append(c.targets, w.stranger.BytesBE(), w.decoyG.BytesBE(), w.decoyN.BytesBE(), util.Uint160{}.BytesBE())
+	c.tclass = append(c.tclass, "stranger", "decoy-global", "decoy-none", "zero-account")
 	return c
+}
+
+// sentinelConfigs: the signer under test is an account that coincides with a
+// "no value" sentinel of the implementation: the all-zero hash (what the VM
+// reports as calling script hash when there is no caller) and the all-ones
+// hash. Every decodable scope byte without Rules x {[], [A]} x {[], [g]}, plus
+// four one-rule lists; both accounts are targets of every configuration, so
+// each is probed as a signer and as an account that did not sign.
+func (w *world) sentinelConfigs(validScopes []transaction.WitnessScope) []sconfig {
+	var out []sconfig
+	A := w.probes[0].Hash
+	add := func(c sconfig) {
+		c.targets = append(c.targets, fill(0xFF).BytesBE())
+		c.tclass = append(c.tclass, "ones-account")
+		out = append(out, c)
+	}
+	for _, acc := range []util.Uint160{{}, fill(0xFF)} {
+		for _, sc := range validScopes {
+			if sc&transaction.Rules != 0 {
+				continue
+			}
+			for ci, cl := range [][]util.Uint160{{}, {A}} {
+				if sc&transaction.CustomContracts == 0 && ci > 0 {
+					continue
+				}
+				for gi, gl := range [][]*keys.PublicKey{{}, {w.g[0]}} {
+					if sc&transaction.CustomGroups == 0 && gi > 0 {
+						continue
+					}
+					add(w.mk("sentinel", len(out), acc, sc, cl, gl, nil, fmt.Sprintf("c%dg%d", ci, gi)))
+				}
+			}
+		}
+		for _, r := range []ruleSpec{{transaction.WitnessAllow, lcond{cBool(true), "T", 1}}, {transaction.WitnessDeny, lcond{cBool(true), "T", 1}},
+			{transaction.WitnessAllow, lcond{transaction.ConditionCalledByEntry{}, "CBE", 1}}, {transaction.WitnessAllow, lcond{cCBC(util.Uint160{}), "CBC0", 1}}} {
+			add(w.mk("sentinel", len(out), acc, transaction.Rules, nil, nil, []ruleSpec{r}, ""))
+		}
+	}
+	return out
 }
 
 // scopeConfigs: every scope byte the decoder accepts without the Rules bit
